@@ -96,7 +96,7 @@ def run_source(kind: str, data: bytes, sched, integ: str, entry: str, tmpdir: st
         log = raw.log
     elif kind in ("pipe-raw", "pipe-buffered", "socket-raw", "socket-buffered"):
         mk = sources.pipe_source if kind.startswith("pipe") else sources.socket_source
-        f, rec, t = mk(data, sched, kind.endswith("buffered"), delay=0.0002)
+        f, rec, t = mk(data, sched, kind.endswith("buffered"), delay=0.0002 if len(data) < 5000 else 0.0)
         try:
             r = parse_from(integ, entry, f)
         finally:
@@ -131,6 +131,20 @@ def nontrivial(log, data: bytes, frames) -> bool:
     return any(c not in bounds and c < len(data) for c in cuts)
 
 
+def big_stream(rng):
+    from .. import wire
+
+    n = rng.randint(250, 400)
+    stmts = [(("iri", f"http://ex.org/s{k % 50}"), ("iri", "http://ex.org/p"),
+              ("lit", ("x%d-" % k) * rng.randint(60, 90), None, None)) for k in range(n)]
+    delimited = rng.random() < 0.5
+    cfg = {"integration": "generic", "physical": 1, "entry": "stream_frames_gen", "frame_size": rng.choice([50, 250]),
+           "preset": (128, 16, 0), "delimited": delimited, "logical": 1, "generalized": True, "rdf_star": True}
+    data = pj.serialize(cfg, stmts)
+    return {"data": data, "delimited": delimited, "events": [("stmt", s) for s in stmts], "producer": "pyjelly",
+            "frames": wire.dec_stream(data, delimited), "physical": 1, "mode": "generic"}
+
+
 def run_shard(ctx):
     tmpdir = tempfile.mkdtemp(prefix="rv-c09-")
     try:
@@ -138,7 +152,11 @@ def run_shard(ctx):
         while not ctx.out_of_time():
             rng = ctx.rng(i)
             i += 1
-            vs = workloads.valid_stream(rng, mode="generic", max_len=20)
+            if i % 40 == 1:
+                vs = big_stream(rng)          # > 64 KiB: read sizes that no small stream can expose
+                ctx.observe("big-streams(>64KiB)")
+            else:
+                vs = workloads.valid_stream(rng, mode="generic", max_len=20)
             if vs is None:
                 continue
             data = vs["data"]
@@ -146,9 +164,20 @@ def run_shard(ctx):
             entry = rng.choice(["flat", "flat", "grouped"])
             base, exc = parse_from(integ, entry, io.BytesIO(data))
             if exc is not None or (entry == "flat" and base != T.norm_events(vs["events"])):
-                ctx.observe("baseline-problem (C01/C04 decide)")
+                # the in-memory buffer is itself one of the sources the property names
+                ctx.violation({"clause": "raised" if exc is not None else "events-differ", "source": "bytesio",
+                               "schedule_name": "n/a", "schedule": [], "first_read": None, "read_log": [],
+                               "bytes": data.hex() if len(data) < 20000 else data[:2000].hex(), "n_bytes": len(data),
+                               "delimited": vs["delimited"], "entry": entry, "producer": vs["producer"],
+                               "summary": f"BytesIO ({len(data)} bytes, delimited={vs['delimited']}): "
+                                          + (f"{type(exc).__name__}: {str(exc)[:120]}" if exc is not None
+                                             else "events differ from the intended events")})
+                ctx.case((gen.case_hash(data), "bytesio"), False)
                 continue
             scheds = schedules(rng, data, vs["frames"])
+            if len(data) > 60000:
+                scheds = [(n, sc) for n, sc in scheds if n in ("1-1-k", "2-k", "1-k", "random-big")] + \
+                    [("all-4096", [4096]), ("all-65536", [65536])]
             kinds = list(KINDS)
             for kind in kinds:
                 these = scheds if kind.startswith("dribble") else [rng.choice(scheds)]
